@@ -2,7 +2,7 @@
    Only statements.  Model: Async/Conn.v.  (Termination/no-panic of the whole task for every fault
    position is added as its proof completes; until then it is decided by the correspondence check
    with EOF at every byte offset and a fault at every read / write call index.) *)
-From FV Require Import Base.Bytes Gen.Generated Parser.ReqModel Parser.ReqTargets Parser.StreamModel Async.Conn Async.ConnWrites Async.ConnTotal Codec.Varint Codec.NV Codec.Vars Parser.ReqWire Parser.AbsStream Parser.StreamSpec Parser.StreamRefine Parser.StreamInv Async.ConnReads Async.LoopTargets Async.LoopProofs.
+From FV Require Import Base.Bytes Gen.Generated Parser.ReqModel Parser.ReqTargets Parser.StreamModel Async.Conn Async.ConnWrites Async.ConnTotal Codec.Varint Codec.NV Codec.Vars Parser.ReqWire Parser.AbsStream Parser.StreamSpec Parser.StreamRefine Parser.StreamInv Async.ConnReads Async.LoopTargets Async.LoopProofs Async.LoopTargets2 Async.LoopProofs2.
 
 (* write_all on the transport, for EVERY write script (faults included): either everything was
    written, or the call failed / the task stopped having written only a PREFIX of the bytes —
@@ -139,4 +139,20 @@ Theorem C12_poll_input_cases :
     pi_case maxc dest dl r w p r' w' /\
     rwriteable r' = rwriteable r || poll_parses dest r && is_inl p && is_final_stream r.
 Proof. exact poll_input_reads. Qed.
+
+(* 'for a handler that propagates I/O errors, nothing is written after a failed write': for EVERY connection
+   (any client bytes, read script, buffer, number of requests) whose handlers propagate errors (every read is
+   `read(..).await?`, writes return their error), if the first fault of the write script (a zero-length write
+   or a write error) is entry number |pre|, then either that entry is never reached or it is the LAST write
+   call the task ever makes: the rest of the script is untouched, so no byte is accepted after the failed call *)
+Theorem C12_nothing_after_failed_write :
+  forall (norm : bytes -> bytes) (maxc : N) (fuel : nat) (p : parser) (scripts : list (list N))
+    (served : nat) (w : world) (pre : list N) (k : N) (post : list N),
+  Forall prop_script scripts ->
+  wscript w = pre ++ k :: post ->
+  no_fault pre ->
+  plain_fault k ->
+  let w' := snd (run_loop norm maxc fuel p scripts served w) in
+  (exists s : list N, wscript w' = s ++ k :: post) \/ wscript w' = post.
+Proof. exact nothing_after_failed_write. Qed.
 
